@@ -1181,6 +1181,15 @@ func (ex *Exec) step(f *Frame, st *State, in ssa.Instruction) bool {
 			case VBool:
 				fn := w.st.declare("map_getb", []string{sortU, bvSort(64), sortU}, sortBool)
 				st.assume(mkEq(app(fn, mu, ep, ku), v.T))
+			default:
+				// any other value: as an uninterpreted term (contract expressions: mapval(m, k))
+				fn := w.st.declare("map_getU", []string{sortU, bvSort(64), sortU}, sortU)
+				iv, isIface := v.(VIface)
+				if isIface && iv.Val != nil {
+					st.assume(mkEq(app(fn, mu, ep, ku), w.fold(st, iv.Val)))
+				} else {
+					st.assume(mkEq(app(fn, mu, ep, ku), w.fold(st, v)))
+				}
 			}
 			has := w.st.declare("map_has", []string{sortU, bvSort(64), sortU}, sortBool)
 			st.assume(app(has, mu, ep, ku))
